@@ -56,6 +56,9 @@ def parse_trace(text):
             _, num, size, rest = line.split(' ', 3)
             ents, status = rest.rsplit(' status=', 1)
             cur['edits'][-1]['tables'][int(num)] = {'entries': ents, 'status': int(status), 'size': int(size)}
+        elif line.startswith('TABLEHEX '):
+            _, num, hx_ = line.split(' ', 2)
+            cur['edits'][-1].setdefault('tablehex', {})[int(num)] = hx_.strip()
         elif line.startswith('LAYOUT '):
             cur['layout'] = line[7:]
         elif line.startswith('DIR'):
@@ -141,6 +144,27 @@ class K2Result:
 
 PROPERTY_KINDS = ('read-vs-spec', 'scan-vs-spec', 'iter-vs-spec', 'view-changed-by-step', 'inv-false-on-observed',
                   'layout-mismatch', 'table-status', 'api-error', 'harness-crash', 'meta-mismatch')
+
+def _valtok(b):
+    if len(b) == 0: return '-'
+    seed = b[0]
+    if all(b[i] == ((seed + i * 31 + (i // 251)) & 255) for i in range(len(b))):
+        return '@%d:%d' % (len(b), seed)
+    return b.hex()
+
+def model_entries_to_dump(mr):
+    """'k=v,k=v ok' (hex internal keys) -> the TABLE line format of the harness; None if the model reported an error"""
+    if not mr.endswith(' ok'): return None
+    body = mr[:-3]
+    if body in ('.', ''): return '.'
+    out = []
+    for t in body.split(','):
+        k, v = t.split('=')
+        kb = bytes.fromhex(k) if k != '-' else b''; vb = bytes.fromhex(v) if v != '-' else b''
+        if len(kb) < 8: return None
+        tag = int.from_bytes(kb[-8:], 'little'); u = kb[:-8]
+        out.append('%s:%x:%d:%s' % (u.hex() if u else '-', tag >> 8, tag & 255, _valtok(vb)))
+    return ','.join(out)
 
 def entries_count(s):
     return 0 if s in ('.', '') else s.count(',') + 1
@@ -280,6 +304,16 @@ def validate(calls, ops, opts, model_exe, res, keys_known, check_every_layout=Tr
                     else:
                         res.stats['policy_divergence'] += 1
                         res.problem('policy-divergence', call['idx'], op=opline, why=why, edit=ed['raw'][:1500])
+                # independent decode: the extracted model reader (TableFormat.v) must read the same entries from the bytes
+                for num, hx_ in ed.get('tablehex', {}).items():
+                    if res.stats.get('tables_decoded_by_model', 0) >= 3: break
+                    o = '%x,%x,%x,%x,1,1,1,0,0' % (int(opts.get('block_size', 4096)), int(opts.get('restart', 16)), int(opts.get('compression', 0)), int(opts.get('bloom', 0)))
+                    mr = m.ask('table_entries %s %s' % (o, hx_))
+                    res.stats['tables_decoded_by_model'] = res.stats.get('tables_decoded_by_model', 0) + 1
+                    want = ed['tables'][num]['entries']
+                    got = model_entries_to_dump(mr)
+                    if got != want:
+                        res.problem('table-bytes-vs-independent-reader', call['idx'], file=num, model=(mr[:300] if got is None else got[:300]), implementation=want[:300])
                 # metadata recorded in the edit vs decoded content
                 for ad in adds:
                     es_ = ed['tables'][ad['num']]['entries']
